@@ -24,7 +24,11 @@ func GenLayoutCase(seed int64, idx int) GCase {
 	name := fmt.Sprintf("l%05d", idx)
 	feats := map[string]bool{}
 	var sb strings.Builder
-	switch r.Intn(4) {
+	switch r.Intn(5) {
+	case 4:
+		// ordinary comment lines in one group with the build constraint
+		sb.WriteString("// Some license header.\n// All rights reserved.\n//go:build convergen\n\n")
+		feats["license-adjacent-to-constraint"] = true
 	case 0:
 		sb.WriteString("//go:build convergen\n\n")
 	case 1:
@@ -49,7 +53,11 @@ func GenLayoutCase(seed int64, idx int) GCase {
 		feats["imports"] = true
 	}
 	decl := func(i int) string {
-		switch r.Intn(9) {
+		switch r.Intn(10) {
+		case 9:
+			// a directive between the ordinary lines of a doc comment
+			feats["directive-inside-doc"] = true
+			return fmt.Sprintf("// E%d is an enum.\n//go:generate stringer -type=E%d\n// More about E%d.\ntype E%d int\n\n", i, i, i, i)
 		case 0:
 			return fmt.Sprintf("// K%d is a constant.\nconst K%d = %d // trailing\n\n", i, i, i)
 		case 1:
